@@ -13,6 +13,7 @@ Every observation is also compared with the os package on the same path (twin).
 import glob
 import json
 import os
+import re
 import random
 
 MSIZES = [128, 256, 4096, 8216, 65536]
@@ -70,29 +71,65 @@ def gen_sequences(ctx, path, ncases, nops, maxfiles):
     return nlines
 
 
+def engine(ctx, prefix, run, **kw):
+    """ctx.go_engine, but a crash of the engine process caused by a panic inside go9p (server or client
+    goroutine) while executing a legal case is an observable failure of the property, not a dead driver"""
+    rep = ctx.go_engine("ufsdata", run, allow_crash=True, **kw)
+    if rep.get("_exit", 0) == 0 and "cases" in rep:
+        return rep
+    out = rep.get("_stdout", "")
+    m = re.search(r"^(panic: .*|fatal error: .*)$", out, re.M)
+    fm = re.search(r"goroutine \d+ \[running\]:\n(?:panic\(.*\n\s+.*\n)?(\S+)\([^()\n]*\)\n", out)
+    first = fm.group(1) if fm else ""
+    if m and first.startswith("github.com/rminnich/go9p."):
+        prog = {}
+        try:
+            import glob as _g
+            cands = sorted(_g.glob(ctx.path("out-*.json.progress")), key=os.path.getmtime)
+            if cands:
+                prog = json.load(open(cands[-1]))
+        except Exception:
+            prog = {}
+        fn = first.split("go9p.", 1)[1]
+        ctx.violation("%s:panic:%s:%s" % (prefix, fn, prog.get("cls", "?")),
+                      "%s: the process crashed inside go9p (%s) while executing %s: %s" % (run, fn, json.dumps(prog)[:400], m.group(1)),
+                      {"engine": run, "progress": prog, "panic": m.group(1)})
+    else:
+        ctx.log("engine output tail:\n" + "\n".join(out.splitlines()[-40:]))
+        ctx.inconclusive.append("engine %s exited %s without a complete report" % (run, rep.get("_exit")))
+    return rep
+
+
 def run(ctx):
+    if ctx.replay:
+        # every case is a deterministic function of (seed, tier): re-execute the run that found it
+        saved = json.load(open(ctx.replay))
+        ctx.seed = int(saved.get("seed", ctx.seed))
+        ctx.tier = saved.get("tier", ctx.tier)
+        ctx.quick = ctx.tier == "quick"
+        ctx.log("replaying seed=%d tier=%s for %s" % (ctx.seed, ctx.tier, saved.get("key")))
     q = ctx.quick
     states = trans = 0
     # 1. the scaled model
     cfgs = [("c14_file_iu3.cfg", consts())]
     if not q:
-        cfgs.append(("c14_file_iu3_w2.cfg", consts(InitLens={0, 2, 4, 7}, MaxWrites=2)))
+        cfgs.append(("c14_file_iu3_w2.cfg", consts(InitLens={0, 2, 7}, MaxWrites=2)))
         cfgs.append(("c14_file_iu4_f2.cfg", consts(Iounit=4, InitLens={0, 3, 5}, MaxOff=9, MaxCnt=9, NFiles=2)))
     for name, c in cfgs:
         ctx.write_cfg(name, c, invariants=FILE_INVS, spec="FileSpec")
-        r = ctx.tlc_must_pass("UfsData", name, timeout=800, name=name)
+        r = ctx.tlc_must_pass("UfsData", name, timeout=800, heap="4g", name=name)
         states += r.distinct
         trans += r.generated
     # the transcription of File.Readn as found must be refuted by the same invariants (binding of
     # the invariants to the defect the engine reports)
     ctx.write_cfg("c14_file_asfound.cfg", consts(ReadnFix=False, InitLens={0, 1, 4}), invariants=FILE_INVS, spec="FileSpec")
-    ra = ctx.tlc("UfsData", "c14_file_asfound.cfg", timeout=300, name="asfound", expect_violation=True)
+    ra = ctx.tlc("UfsData", "c14_file_asfound.cfg", timeout=300, heap="4g", name="asfound", expect_violation=True)
     if ra.violated != "ReadsMeet":
         ctx.inconclusive.append("the model of File.Readn as found was not refuted by ReadsMeet (%s)" % (ra.violated or ra.error))
     # 2. concrete case tables
     tab = ctx.path("c14_table")
     ctx.write_cfg("c14_table.cfg", consts(), spec="TableSpec")
-    rt = ctx.tlc_must_pass("UfsDataTrace", "c14_table.cfg", workers=1, timeout=300, name="tables",
+    rt = ctx.tlc_must_pass("UfsDataTrace", "c14_table.cfg", workers=1, timeout=300, heap="4g", name="tables",
                            env={"TABLE_OUT": tab, "IN_FILE": os.devnull})
     ntab = 0
     for m in MSIZES:
@@ -101,15 +138,15 @@ def run(ctx):
             ctx.inconclusive.append("TLC wrote no case table for msize %d" % m)
         else:
             ntab += sum(1 for _ in open(p))
-    rep1 = ctx.go_engine("ufsdata", "TestC14Cases", env={
-        "VERIF_TABLE": tab, "VERIF_MSIZES": ",".join(map(str, MSIZES)), "VERIF_SAMPLE_PCT": 100},
+    rep1 = engine(ctx, "c14", "TestC14Cases", env={
+        "VERIF_TABLE": tab, "VERIF_MSIZES": ",".join(map(str, MSIZES)), "VERIF_SAMPLE_PCT": 45 if q else 100},
         timeout=700)
     # 3. random sequences, many files open at once
     ops = ctx.path("c14_ops.ndjson")
     exp = ctx.path("c14_expect")
-    nlines = gen_sequences(ctx, ops, 60 if q else 400, 40 if q else 90, 8 if q else 40)
+    nlines = gen_sequences(ctx, ops, 40 if q else 400, 40 if q else 90, 8 if q else 40)
     ctx.write_cfg("c14_expect.cfg", consts(), spec="ExpectSpec")
-    re_ = ctx.tlc_must_pass("UfsDataTrace", "c14_expect.cfg", workers=1, timeout=600, name="expect",
+    re_ = ctx.tlc_must_pass("UfsDataTrace", "c14_expect.cfg", workers=1, timeout=600, heap="4g", name="expect",
                             env={"IN_FILE": ops, "OUT_FILE": exp})
     if "CONSUMED" not in re_.out:
         ctx.inconclusive.append("TLC did not consume the operation sequences")
@@ -117,7 +154,7 @@ def run(ctx):
     if nmodel:
         ctx.inconclusive.append("transcription and demand disagree on %d random operations" % nmodel)
     nexp = sum(sum(1 for _ in open(p)) for p in glob.glob(exp + ".*"))
-    rep2 = ctx.go_engine("ufsdata", "TestC14Seq", env={"VERIF_OPS": ops, "VERIF_EXPECT": exp}, timeout=700)
+    rep2 = engine(ctx, "c14", "TestC14Seq", env={"VERIF_OPS": ops, "VERIF_EXPECT": exp}, timeout=700)
     executed = rep1.get("cases", 0) + rep2.get("stats", {}).get("steps", 0)
     cov = {
         "states": states, "transitions": trans,
